@@ -81,6 +81,25 @@ def _pair_parts(call):
     return _tuple0(call[2][1]), ps
 
 
+NOM_TUPLE_C = re.compile(r"^nom::sequence::tuple::\{closure#0\}$")
+
+
+def _tuple_parts(call):
+    """for `tuple((P1, .., Pn))(i)`: (input, [desc(Pk)]) or None"""
+    if not NOM_TUPLE_C.match(call[1]):
+        return None
+    mk = T.peel(call[2][0], payloads=False)
+    if not (T.is_call(mk, r"^nom::sequence::tuple$") and len(mk[2]) == 1):
+        return None
+    ps = T.peel(mk[2][0], payloads=False)
+    if not (isinstance(ps, tuple) and ps[0] == "agg" and ps[1] == "tuple"):
+        return None
+    ds = [_parser_desc(x) for x in ps[4]]
+    if any(d is None for d in ds):
+        return None
+    return _tuple0(call[2][1]), ds
+
+
 NOM_TERMINATED_C = re.compile(r"^nom::sequence::terminated::\{closure#0\}$")
 
 
@@ -154,9 +173,22 @@ def nom_step(call):
     return None
 
 
+def _some_of(t):
+    """`opt.ok_or(..)?` / `opt.ok_or_else(..)?` yield the Some payload: read okpayload(ok_or_else(X, _)) as somepayload(X)"""
+    if isinstance(t, tuple) and t[0] == "field" and isinstance(t[1], tuple) and t[1][0] == "okpayload":
+        inner = T.peel(t[1][1], payloads=False)
+        if T.is_call(inner, r"Option::<T>::(ok_or_else|ok_or)$"):
+            return ("field", ("somepayload", inner[2][0])) + tuple(t[2:])
+    if isinstance(t, tuple) and t[0] == "okpayload":
+        inner = T.peel(t[1], payloads=False)
+        if T.is_call(inner, r"Option::<T>::(ok_or_else|ok_or)$"):
+            return ("somepayload", inner[2][0])
+    return t
+
+
 def locate(t, depth=0):
     """(base, off, length) for slice-typed term t; base is the term where the chain starts."""
-    t = T.peel(t, payloads=False)
+    t = _some_of(T.peel(t, payloads=False))
     if depth > 40 or not isinstance(t, tuple):
         return t, Aff(0), None
     call, idx = _unwrap_result_tuple(t)
@@ -168,6 +200,13 @@ def locate(t, depth=0):
             if idx == 0:
                 return b, off, k
             return b, off.add(k), (ln.add(k, -1) if ln is not None else None)
+        tup = _tuple_parts(call)
+        if tup is not None and idx == 0 and all(d[0] is not None for d in tup[1]):
+            b, off, ln = locate(tup[0], depth + 1)
+            w = Aff(0)
+            for d in tup[1]:
+                w = w.add(d[0])
+            return b, off.add(w), (ln.add(w, -1) if ln is not None else None)
         tp = _terminated_parts(call)
         if tp is not None:
             inp, d1, d2 = tp
@@ -193,6 +232,11 @@ def locate(t, depth=0):
                 return b, off.add(w), (ln.add(w, -1) if ln is not None else None)
             else:  # value part (for take/tag/take_until it is a slice)
                 return b, off, w
+    # `x.split_first()` = Some((&x[0], &x[1..]))
+    if t[0] == "field" and isinstance(t[1], tuple) and t[1][0] == "somepayload" and T.is_call(T.peel(t[1][1], payloads=False), r"slice::<impl \[T\]>::split_first$") and t[3] == 1:
+        c = T.peel(t[1][1], payloads=False)
+        b, off, ln = locate(c[2][0], depth + 1)
+        return b, off.add(Aff(1)), (ln.add(Aff(1), -1) if ln is not None else None)
     # item of `x.chunks_exact(n)` / `x.chunks(n)`: the k-th chunk is x[n*k .. n*k + n] (k = the iteration, one atom per loop)
     if t[0] == "somepayload" and T.is_call(T.peel(t[1], payloads=False), r"(ChunksExact|Chunks)<'a, T> as std::iter::Iterator>::next$"):
         nx = T.peel(t[1], payloads=False)
@@ -239,7 +283,7 @@ def locate(t, depth=0):
 def reading(t):
     """Description of a scalar read: {'kind','base','off','width'} or None.
     Handles nom number parsers' value part and `slice[i]` indexing."""
-    t0 = T.peel(t, payloads=False)
+    t0 = _some_of(T.peel(t, payloads=False))
     call, idx = _unwrap_result_tuple(t0)
     if call is not None and idx == 1:
         st = nom_step(call)
@@ -247,6 +291,29 @@ def reading(t):
             inp, w, kind, _ = st
             b, off, _ln = locate(inp)
             return {"kind": kind, "base": b, "off": off, "width": w.c}
+    # `*x.split_first()?.0` is x[0];  `*x.get(i)?` / `*x.first()?` is x[i] / x[0]
+    if isinstance(t0, tuple) and t0[0] == "field" and t0[3] == 0 and isinstance(t0[1], tuple) and t0[1][0] == "somepayload" and \
+            T.is_call(T.peel(t0[1][1], payloads=False), r"slice::<impl \[T\]>::split_first$"):
+        c = T.peel(t0[1][1], payloads=False)
+        b, off, _ln = locate(c[2][0])
+        return {"kind": "u8", "base": b, "off": off, "width": 1}
+    if isinstance(t0, tuple) and t0[0] == "somepayload" and T.is_call(T.peel(t0[1], payloads=False), r"slice::<impl \[T\]>::(get|first)$"):
+        c = T.peel(t0[1], payloads=False)
+        b, off, _ln = locate(c[2][0])
+        ix = T.affine(c[2][1]) if c[1].endswith("::get") and len(c[2]) == 2 else Aff(0)
+        return {"kind": "u8", "base": b, "off": off.add(ix), "width": 1}
+    # element k of the value tuple of `tuple((P1, .., Pn))(i)`
+    if isinstance(t0, tuple) and t0[0] == "field" and isinstance(t0[3], int):
+        call3, idx3 = _unwrap_result_tuple(t0[1])
+        if call3 is not None and idx3 == 1:
+            tup = _tuple_parts(call3)
+            if tup is not None and t0[3] < len(tup[1]) and all(d[0] is not None for d in tup[1][:t0[3]]):
+                b, off, _ln = locate(tup[0])
+                for d in tup[1][:t0[3]]:
+                    off = off.add(d[0])
+                d = tup[1][t0[3]]
+                if d[1] not in ("take", "tag", "take_until") and d[0] is not None:
+                    return {"kind": d[1], "base": b, "off": off, "width": d[0].c}
     # element k of the value pair of `pair(P1, P2)(i)`
     if isinstance(t0, tuple) and t0[0] == "field" and isinstance(t0[3], int) and t0[3] in (0, 1):
         call2, idx2 = _unwrap_result_tuple(t0[1])
